@@ -297,6 +297,23 @@ func c16Intact(r *Run, n, k, s int, send string) {
 	if got := c16Len(b); got != n || got != len(dec) {
 		r.fail(Failure{Oracle: "Len() without decoding equals the decoded length", Op: lOp, Got: itoa(got), Want: itoa(n)})
 	}
+	// one Origin object through its two states: Len, Bytes and String agree before and after
+	// the block is decoded (Bytes() switches the object to the decoded state)
+	if recovered(func() {
+		o := &seqio.Origin{Buffer: append([]byte(nil), b...), Parsed: false}
+		l0, s0 := o.Len(), o.String()
+		d1 := append([]byte(nil), o.Bytes()...)
+		l1, s1 := o.Len(), o.String()
+		d2 := append([]byte(nil), o.Bytes()...)
+		l2 := o.Len()
+		if l0 != n || l1 != n || l2 != n || !bytes.Equal(d1, p) || !bytes.Equal(d2, p) || s0 != string(b) || s1 != string(b) {
+			r.fail(Failure{Oracle: "Len / Bytes / String of one Origin agree before and after decoding", Op: lOp,
+				Got:  fmt.Sprintf("Len %d, then Bytes (%d residues), Len %d, String equal %v, Bytes again (%d), Len %d", l0, len(d1), l1, s1 == string(b) && s0 == string(b), len(d2), l2),
+				Want: fmt.Sprintf("%d residues in every state", n)})
+		}
+	}) {
+		r.fail(Failure{Oracle: "Len / Bytes / String of one Origin do not panic", Op: lOp, Got: "PANIC"})
+	}
 	var v string
 	if recovered(func() { v = c16Validate(b, n) }) || v != "OK" {
 		r.fail(Failure{Oracle: "the fast path accepts the block of printable residues", Op: fmt.Sprintf("origin.validate %s %d", encBytes(b), n), Got: v, Want: "OK"})
